@@ -289,6 +289,30 @@ void save_svalue (svalue_t * v, char **buf) {
 
 static int restore_internal_size_1 (char **str, int is_mapping, int depth);
 
+/* Record the size of container number `depth` of the text being pre-scanned.  Entries that
+ * are never written stay -1: the pre-scan can pass over a container that the restore
+ * proper later meets (damaged text), and its size must not be read from memory nobody
+ * wrote (an allocation of that many elements ended in "Totally out of MEMORY"). */
+static void record_restore_size (int depth, int size) {
+  int old_max = save_svalue_sizes ? save_max_depth : 0;
+
+  if (!save_svalue_sizes)
+    {
+      save_max_depth = 128;
+      while (save_max_depth <= depth)
+        save_max_depth <<= 1;
+      save_svalue_sizes = CALLOCATE (save_max_depth, int, TAG_TEMPORARY, "restore_internal_size");
+    }
+  else if (depth >= save_max_depth)
+    {
+      while ((save_max_depth <<= 1) <= depth);
+      save_svalue_sizes = RESIZE (save_svalue_sizes, save_max_depth, int, TAG_TEMPORARY, "restore_internal_size");
+    }
+  while (old_max < save_max_depth)
+    save_svalue_sizes[old_max++] = -1;
+  save_svalue_sizes[depth] = size;
+}
+
 /* The pre-scan recurses once per nesting level of the text, and so do restore_array(),
  * restore_mapping() and restore_class() after it.  save_svalue() never writes more than
  * MAX_SAVE_SVALUE_DEPTH levels: a text nested deeper is damaged (or hostile), and is
@@ -372,19 +396,7 @@ static int restore_internal_size_1 (char **str, int is_mapping, int depth) {
             if (*cp++ == ')' && is_mapping)
               {
                 *str = cp;
-                if (!save_svalue_sizes)
-                  {
-                    save_max_depth = 128;
-                    while (save_max_depth <= depth)
-                      save_max_depth <<= 1;
-                    save_svalue_sizes = CALLOCATE (save_max_depth, int, TAG_TEMPORARY, "restore_internal_size");
-                  }
-                else if (depth >= save_max_depth)
-                  {
-                    while ((save_max_depth <<= 1) <= depth);
-                    save_svalue_sizes = RESIZE (save_svalue_sizes, save_max_depth, int, TAG_TEMPORARY, "restore_internal_size");
-                  }
-                save_svalue_sizes[depth] = size;
+                record_restore_size (depth, size);
                 return 1;
               }
             else
@@ -399,20 +411,7 @@ static int restore_internal_size_1 (char **str, int is_mapping, int depth) {
             if (*cp++ == ')' && !is_mapping)
               {
                 *str = cp;
-                if (!save_svalue_sizes)
-                  {
-                    save_max_depth = 128;
-                    while (save_max_depth <= depth)
-                      save_max_depth <<= 1;
-                    save_svalue_sizes = CALLOCATE (save_max_depth, int, TAG_TEMPORARY,
-                                       "restore_internal_size");
-                  }
-                else if (depth >= save_max_depth)
-                  {
-                    while ((save_max_depth <<= 1) <= depth);
-                    save_svalue_sizes = RESIZE (save_svalue_sizes, save_max_depth, int, TAG_TEMPORARY, "restore_internal_size");
-                  }
-                save_svalue_sizes[depth] = size;
+                record_restore_size (depth, size);
                 return 1;
               }
             else
@@ -774,6 +773,8 @@ static int restore_mapping (char **str, svalue_t * sv) {
       if (!save_svalue_sizes || save_svalue_depth > save_max_depth)
         return ROB_MAPPING_ERROR;
       size = save_svalue_sizes[save_svalue_depth - 1];
+      if (size < 0)		/* the pre-scan never saw this container */
+        return ROB_MAPPING_ERROR;
     }
   else if ((size = restore_size (str, 1)) < 0)
     {
@@ -1028,6 +1029,8 @@ static int restore_class (char **str, svalue_t * ret) {
       if (!save_svalue_sizes || save_svalue_depth > save_max_depth)
         return ROB_CLASS_ERROR;
       size = save_svalue_sizes[save_svalue_depth - 1];
+      if (size < 0)		/* the pre-scan never saw this container */
+        return ROB_CLASS_ERROR;
     }
   else if ((size = restore_size (str, 0)) < 0)
     return ROB_CLASS_ERROR;
@@ -1133,6 +1136,8 @@ static int restore_array (char **str, svalue_t * ret) {
       if (!save_svalue_sizes || save_svalue_depth > save_max_depth)
         return ROB_ARRAY_ERROR;
       size = save_svalue_sizes[save_svalue_depth - 1];
+      if (size < 0)		/* the pre-scan never saw this container */
+        return ROB_ARRAY_ERROR;
     }
   else if ((size = restore_size (str, 0)) < 0)
     return ROB_ARRAY_ERROR;
